@@ -36,6 +36,11 @@ pub const fn panic_power_negative_base() -> ! {
     panic!("powering on negative bases could result in complex number!")
 }
 
+/// Panics when taking the logarithm of zero or a negative number
+pub(crate) fn panic_log_nonpositive() -> ! {
+    panic!("logarithm is not defined for zero and negative numbers!")
+}
+
 /// Panics when taking an even order root of an negative number
 pub(crate) fn panic_root_negative() -> ! {
     panic!("the root is a complex number!")
